@@ -68,11 +68,13 @@ def gen_cases(seed, tier):
             prob = PROBLEMS[pn] if pn != "tabular" else _tab_problem(rng, sv)
             vkw = ckpt_variant(sv, rng, pi_)
             if tier == "quick":
-                ks_all = sorted({int(x) for x in rng.choice(np.arange(1, 26), size=3, replace=False)})
+                # interruption points relative to the run length (resolved in the worker once the
+                # uninterrupted run is known): the first sweep, a random interior point, the last but one
+                ks_all = [["frac", 0.0], ["frac", float(rng.uniform(0.2, 0.8))], ["frac", 1.0]]
             else:
                 ks_all = list(range(1, 41))
-            if sv == "pi":
-                ks_all = [1, 2, 3] if tier == "quick" else [1, 2, 3, 4, 5, 6]
+            if sv == "pi" and tier != "quick":
+                ks_all = [1, 2, 3, 4, 5, 6]
             for i in range(0, len(ks_all), chunk):
                 cases.append(dict(kind="resume", solver=sv, pname=pn, problem=prob, ks=ks_all[i:i + chunk],
                                   vkw=vkw,
@@ -134,7 +136,13 @@ def _resume(case, sv, base):
     nconv = int(ref["final"]["iteration"])
     traj = {int(k): v for k, v in ref["trajectory"].items()}
     judged = []
+    ks = []
     for k in case["ks"]:
+        if isinstance(k, list):      # ["frac", x]: 1 + round(x * (nconv - 2)), i.e. 1 .. nconv-1
+            k = 1 + int(round(k[1] * max(nconv - 2, 0)))
+        if k not in ks:
+            ks.append(k)
+    for k in ks:
         if k >= nconv:
             continue   # at k = n_conv the run was not interrupted, it had finished
         f = k if case["f"] == "k" else int(case["f"])
